@@ -28,6 +28,7 @@ import (
 
 	"github.com/gobwas/ws"
 	"github.com/gobwas/ws/wsutil"
+	"google.golang.org/genproto/googleapis/api/httpbody"
 	"google.golang.org/genproto/googleapis/rpc/errdetails"
 	spb "google.golang.org/genproto/googleapis/rpc/status"
 	"google.golang.org/grpc"
@@ -72,6 +73,15 @@ type Script struct {
 	HdrLate []KV `json:"hdr_late,omitempty"` // SetHeader after the first reply (no delivery obligation)
 	Trl     []KV `json:"trl,omitempty"`      // SetTrailer before the first reply
 	TrlLate []KV `json:"trl_late,omitempty"` // SetTrailer after the first reply
+	// HttpBody download (C14, methods Download / DownloadU): DL is "writer"
+	// (larking.AsHTTPBodyWriter, streaming Download on HTTP transcoding) or
+	// "sendmsg" (HttpBody messages); Chunks are the sizes of the writes /
+	// messages (none = the handler never writes a byte); HdrAt tells when the
+	// Hdr / Trl calls are made: "" before the writer is obtained / before the
+	// first message, "after-writer", "between" (after the first write).
+	DL     string `json:"dl,omitempty"`
+	Chunks []int  `json:"chunks,omitempty"`
+	HdrAt  string `json:"hdr_at,omitempty"`
 	// Pre is a metadata call made right before the status is returned, i.e.
 	// after the replies (C05): "" | "set" | "send" | "trl", with fixed metadata.
 	Pre string `json:"pre,omitempty"`
@@ -416,7 +426,7 @@ func newChunk(id string, seq int32) proto.Message {
 // the HttpBody upload route.
 func chunkID(m proto.Message) string {
 	r := m.ProtoReflect()
-	for _, f := range []protoreflect.Name{"id", "name"} {
+	for _, f := range []protoreflect.Name{"id", "name", "a"} {
 		if fd := r.Descriptor().Fields().ByName(f); fd != nil {
 			return r.Get(fd).String()
 		}
@@ -457,6 +467,58 @@ func (e *Env) headerOps(id string, sc *Script, set, send func(metadata.MD) error
 		noteErr("SetTrailer", trl(tmd))
 		mutateMD(tmd, sc.Mutate)
 	}
+}
+
+const dlContentType = "application/x-verif-download"
+
+func dlPayload(i, n int) []byte {
+	b := make([]byte, n)
+	for j := range b {
+		b[j] = byte(i*31 + j*7 + 1)
+	}
+	return b
+}
+
+// download is the HttpBody download handler: metadata calls before the writer
+// is obtained / after it / between writes, then 0..n writes or messages.
+func (e *Env) download(ss grpc.ServerStream, id string, sc *Script) error {
+	ops := func() {
+		e.headerOps(id, sc, ss.SetHeader, ss.SendHeader, func(m metadata.MD) error { ss.SetTrailer(m); return nil })
+	}
+	if sc.HdrAt == "" {
+		ops()
+	}
+	var w io.Writer
+	if sc.DL == "writer" {
+		var err error
+		if w, err = larking.AsHTTPBodyWriter(ss, &httpbody.HttpBody{ContentType: dlContentType}); err != nil {
+			e.record(id, func(r *Rec) { r.OpErrs = append(r.OpErrs, "AsHTTPBodyWriter: "+err.Error()) })
+			return status.Error(codes.FailedPrecondition, "harness: AsHTTPBodyWriter: "+err.Error())
+		}
+	}
+	if sc.HdrAt == "after-writer" {
+		ops()
+	}
+	for i, n := range sc.Chunks {
+		var err error
+		if w != nil {
+			_, err = w.Write(dlPayload(i, n))
+		} else {
+			err = ss.SendMsg(&httpbody.HttpBody{ContentType: dlContentType, Data: dlPayload(i, n)})
+		}
+		if err != nil {
+			e.record(id, func(r *Rec) { r.OpErrs = append(r.OpErrs, "write: "+err.Error()) })
+			break
+		}
+		e.record(id, func(r *Rec) { r.Sent++ })
+		if i == 0 && sc.HdrAt == "between" {
+			ops()
+		}
+	}
+	if sc.Code != 0 {
+		return statusOf(sc).Err()
+	}
+	return nil
 }
 
 // preOp is the metadata call a C05 handler makes right before it returns.
@@ -502,6 +564,13 @@ func (e *Env) unary(ctx context.Context, md protoreflect.MethodDescriptor, in pr
 		return nil, statusOf(sc).Err()
 	}
 	e.record(id, func(r *Rec) { r.Sent = 1 })
+	if sc.DL != "" {
+		var data []byte
+		for i, n := range sc.Chunks {
+			data = append(data, dlPayload(i, n)...)
+		}
+		return &httpbody.HttpBody{ContentType: dlContentType, Data: data}, nil
+	}
 	if md.Output().FullName() != chunkDesc().FullName() {
 		return vschema.NewMsg(md.Output()), nil
 	}
@@ -521,6 +590,9 @@ func (e *Env) stream(md protoreflect.MethodDescriptor, ss grpc.ServerStream) err
 	inMD, _ := metadata.FromIncomingContext(ss.Context())
 	e.record(id, func(r *Rec) { r.Ran = true; r.MD = inMD.Copy() })
 	defer e.record(id, func(r *Rec) { r.Done = true })
+	if sc.DL != "" {
+		return e.download(ss, id, sc)
+	}
 	e.headerOps(id, sc, ss.SetHeader, ss.SendHeader, func(m metadata.MD) error { ss.SetTrailer(m); return nil })
 	for i := 0; i < sc.Replies; i++ {
 		if err := ss.SendMsg(newChunk(id, int32(i+1))); err != nil {
@@ -848,6 +920,10 @@ func (e *Env) doHTTPShape(c *Case, id string, sock bool) *Obs {
 		method, path = "GET", "/v1/echo/"+id+"/a/b/c"
 	case "no-method":
 		path, body = "/"+e.Std.Pkg+".Std/NoSuchMethod", []byte("{}")
+	case "download":
+		method, path = "GET", "/v1/download/"+id
+	case "downloadu":
+		method, path = "GET", "/v1/downloadu/"+id
 	}
 	h := http.Header{}
 	if c.ReqCT != "-" {
@@ -1138,6 +1214,9 @@ func (e *Env) doGRPCH2C(c *Case, id string) *Obs {
 	h := http.Header{"Content-Type": {c.grpcCT("application/grpc")}, "Te": {"trailers"}}
 	c.reqHeaders(h, false)
 	c.grpcHeaders(h)
+	if c.Script.WaitCtx {
+		h.Set("Grpc-Timeout", "20m")
+	}
 	var o *Obs
 	if c.Hold {
 		// the request body stays open until the whole response (status
@@ -1243,6 +1322,9 @@ func (e *Env) doWebSock(c *Case, id string) *Obs {
 	h := http.Header{"Content-Type": {c.grpcCT(ct)}}
 	c.reqHeaders(h, false)
 	c.grpcHeaders(h)
+	if c.Script.WaitCtx {
+		h.Set("Grpc-Timeout", "20m")
+	}
 	o := e.sockDo(e.H1, e.Std.Full(c.Method), h, body)
 	o.decodeWeb(c.webText())
 	return o
